@@ -290,12 +290,15 @@ structure Decoded (V : Type) where
   cregs : Regs
   ops : List (Op V)
 
-/-- `get_circuit`: at least one qubit, every location inside the circuit. -/
+/-- `get_circuit`: at least one qubit; `circuit.extend` wants every location non-empty (an
+operation on a zero-size register raises `max() iterable argument is empty`) and inside the
+circuit. -/
 def finish (s : St V) : Option (Decoded V) :=
   let n := totalSize s.qregs
   let ops := s.ops.reverse
   if n == 0 then none
-  else if ops.all (fun o => o.loc.all (· < n)) then some ⟨n, s.cregs, ops⟩ else none
+  else if ops.all (fun o => !o.loc.isEmpty && o.loc.all (· < n)) then some ⟨n, s.cregs, ops⟩
+  else none
 
 /-- `parse` (after the lexer) + `visit_topdown` + `get_circuit` -/
 def decodeToks (A : Arith V) (table : List BuiltinDef) (ts : List Tok) : Option (Decoded V) :=
